@@ -81,7 +81,27 @@ def border_fan(k=1):
     return cycles, info
 
 
-SHAPES = {"tri_star": tri_star, "double_y": double_y, "four_fold": four_fold, "border_fan": border_fan}
+def tri_star_ear(k=1):
+    """tri_star whose first outer arc carries an extra cell ('ear') glued along one mesh edge: the ear touches no
+    internal interface (its only shared interface has no end with three cells)"""
+    J, S, R = 90, [11, 12, 13], [21, 22, 23]
+    Ra, Rb, E1, E2 = 24, 25, 81, 82
+    sp = [[30 + 10 * i + j for j in range(k)] for i in range(3)]
+    spokes = [_path(J, sp[i], S[i]) for i in range(3)]
+    cids = [7, 3, 5]
+    ear = 12
+    cycles = {}
+    cycles[cids[0]] = spokes[0] + [Ra, Rb] + spokes[1][::-1][:-1]
+    cycles[ear] = [Ra, E1, E2, Rb]           # second in construction order: its column lies between used ones
+    for i in (1, 2):
+        cycles[cids[i]] = spokes[i] + [R[i]] + spokes[(i + 1) % 3][::-1][:-1]
+    info = dict(junction_rows=[J], internal=spokes, three_cell_vertices=[J],
+                external=[[S[0], Ra], [Ra, Rb], [Rb, S[1]], [Ra, E1, E2, Rb], [S[1], R[1], S[2]], [S[2], R[2], S[0]]],
+                cells_of={tuple(spokes[i]): (cids[(i - 1) % 3], cids[i]) for i in range(3)}, isolated_cells=[ear])
+    return cycles, info
+
+
+SHAPES = {"tri_star": tri_star, "tri_star_ear": tri_star_ear, "double_y": double_y, "four_fold": four_fold, "border_fan": border_fan}
 
 
 def vertex_ids(cycles):
